@@ -21,7 +21,8 @@ EXTENDS Mapping
 
 CONSTANT Thorough          \* FALSE: quick families; TRUE: wider products
 
-VARIABLE c                 \* [fam, m, d, out]
+VARIABLES c,               \* [fam, m, d, valid, out]
+          done             \* out has been computed (cases to replay: done = TRUE)
 
 \* ------------------------------------------------------- building blocks
 
@@ -252,17 +253,23 @@ Cases ==
 
 \* ------------------------------------------------------------------ spec
 
-Init == \E x \in Cases : c = [fam |-> x.fam, m |-> x.m, d |-> x.d,
-                              out |-> MapDocument(x.m, x.d)]
-Next == UNCHANGED c
-Spec == Init /\ [][Next]_c
+\* Init only picks the case; the step computes the expected outcome, so that
+\* the expensive part (MapDocument and the invariants) runs in TLC's parallel
+\* breadth-first phase and not in the sequential initial-state enumeration.
+Init == /\ \E x \in Cases : c = [fam |-> x.fam, m |-> x.m, d |-> x.d, valid |-> FALSE,
+                              out |-> NotIndexed]
+        /\ done = FALSE
+Next == /\ ~done
+        /\ done' = TRUE
+        /\ c' = [c EXCEPT !.out = MapDocument(c.m, c.d), !.valid = Valid(c.m)]
+Spec == Init /\ [][Next]_<<c, done>>
 
 \* -------------------------------------------------------------- invariants
 
-RoundTripIdentity  == RoundTrip(c.m) = c.m
-RoundTripBehaviour == MapDocument(RoundTrip(c.m), c.d) = c.out
-AlgorithmMeetsSpec == MapDocSpec(c.m, c.d) = c.out
-ValidityAsDesigned == Valid(c.m) <=> (c.fam # "invalid")
+RoundTripIdentity  == done => RoundTrip(c.m) = c.m
+RoundTripBehaviour == done => MapDocument(RoundTrip(c.m), c.d) = c.out
+AlgorithmMeetsSpec == done => MapDocSpec(c.m, c.d) = c.out
+ValidityAsDesigned == done => (c.valid <=> (c.fam # "invalid"))
 
 \* every field name lies below no disabled sub-mapping, and every explicit
 \* field carries exactly the options of one field mapping at its path
@@ -281,14 +288,14 @@ DMsAt(dm, prefix) ==
 Root == MappingForType(c.m, DetermineType(c.m, c.d))
 
 OptionsNotMixed ==
-  \A f \in AllFields(c.out) :
+  done => \A f \in AllFields(c.out) :
     \/ \E pd \in DMsAt(Root, "") : \E i \in 1..Len(pd[2].fields) :
           /\ Opts(pd[2].fields[i]) = f.opts
           /\ pd[2].fields[i].type = f.type
     \/ f.opts = Opts(DynFM(c.m, f.type))           \* a dynamic field
 
 NothingWhenDisabled ==
-  ~Root.enabled => (c.out = NotIndexed)
+  done /\ ~Root.enabled => (c.out = NotIndexed)
 
 FamiliesSeen == TRUE
 =============================================================================
